@@ -396,7 +396,7 @@ impl Property for C02 {
         40_000
     }
     fn random_cases(&self, tier: Tier) -> u64 {
-        tier.pick(12_000, 80_000)
+        tier.pick(50_000, 250_000)
     }
     fn run(&self, t: &mut Tape, ctx: &mut CaseCtx) -> Verdict {
         let (prog, _info) = gen_cascade(t, 22);
